@@ -8,6 +8,8 @@ CONSTANTS
   SPeriod = 2
   Discipline = "irq"
   MaxNest = 2
+  LoopForever = FALSE
+  FastPathChecksAtomicQ = TRUE
   Sleeper = TRUE
 VIEW MCView
 INVARIANT Safety
